@@ -282,6 +282,51 @@ def vlog_header():
     return hit, "\n".join(text)
 
 
+def vlog_torn_header(lengths=(1, 3, 4, 6, 9, 10, 15, 30)):
+    """power loss while the header of a new value-log file is being written (the file holds the first n bytes of
+    the header, for several n): the acknowledged commit is in the WAL; the store must open, show it, and keep working"""
+    hit_any, text = False, []
+    opts = "lc=2,vlog=1,vth=8,vfs=4096"
+    for n in lengths:
+        ch = Chain("vlogtorn")
+        out, log = ch.session(txn(1, [("61", "rep:100:1"), ("62", "rep:100:2")], sync=True) + ["flush"], opts=opts)
+        def first_vlog_write(i, l, sim):
+            if not l.startswith("W "):
+                return False
+            f = sim.fds.get(int(l.split()[1]))
+            return any(g is f for p_, g in sim.files.items() if "/vlog/" in p_)
+        k = ch.cut(first_vlog_write)
+        if k is None:
+            ch.cleanup()
+            return False, "no value-log write in session 1"
+        # the torn write: only the first n bytes of the header reached the disk
+        for p_, f in ch.files.items():
+            if "/vlog/" in p_ and f.pending and f.pending[-1][0] == "w":
+                op = f.pending[-1]
+                f.pending[-1] = ("w", op[1], op[2][:n + 1])
+        t = ["session 1 (options %s): txn1 acknowledged (sync); flush; POWER loss after log line %d: %d bytes of the header of the new value-log file reached the disk" % (opts, k, n)]
+        out, log = ch.session(["begin 9 ro", "scan 9 - ~ f", "drop 9"] + txn(2, [("63", "rep:100:3")], sync=True) + ["flush"], "allbutone", opts=opts)
+        o2 = (out[1] if len(out) > 1 else "no-answer"), (out[3] if len(out) > 3 else str(out))
+        t.append("session 2: open = %s, scan = %s" % (o2[0], o2[1][:120]))
+        good2 = o2[0] == "ok" and all(("6%d=" % j) in o2[1] for j in (1, 2))
+        good3 = True
+        if good2:
+            root, log2, sim = ch.cur
+            ch.cut(lambda i, l, sim_: i == len(log2) - 1)
+            out3, _ = ch.session(["begin 9 ro", "scan 9 - ~ f"], "proc", opts=opts)
+            o3 = (out3[1] if len(out3) > 1 else "no-answer"), (out3[3] if len(out3) > 3 else str(out3))
+            t.append("session 3: open = %s, scan = %s" % (o3[0], o3[1][:160]))
+            good3 = o3[0] == "ok" and all(("6%d=" % j) in o3[1] for j in (1, 2, 3))
+        hit = not (good2 and good3)
+        t.append("   the image with the torn value-log header does not reopen with the acknowledged content" if hit else "   (not reproduced)")
+        t += ["# scripts:"] + ["#  session %d (image policy %s): %s" % (i + 1, pl, " ; ".join(s_[1:])) for i, (pl, s_) in enumerate(ch.scripts)]
+        ch.cleanup()
+        if hit:
+            return True, "\n".join(t)
+        text = t
+    return False, "\n".join(["(header lengths tried: %s)" % (list(lengths),)] + text)
+
+
 SCENARIOS = {
     # class name -> (property, scenario)
     "recovery_piece_part_of_txn_wal_unsynced": ("C03", piece),
@@ -290,6 +335,7 @@ SCENARIOS = {
     "acks_behind_torn_first_record_lost": ("C02", torn_first),
     "flush_before_relog_part_of_txn": ("C03", relog_race),
     "empty_vlog_file_gets_no_header": ("C07", vlog_header),
+    "torn_vlog_file_blocks_reopen": ("C07", vlog_torn_header),
 }
 
 
